@@ -43,7 +43,14 @@ func init() {
 		c.Specs[0].Chunks = hexChunks(keys) // reference: one key per read
 		// In vi a lone ESC is a key of its own only by timing: it ends its read in
 		// every delivery, and no read is cut directly after an ESC byte.
+		c.Specs[1].CPRWith = nil
 		switch c.Meta["how"] {
+		case "with-cursor-report":
+			// the same reads, but the keys of one of them arrive in the same read as the answer of the terminal to a
+			// cursor position query of the redisplay (before it, or after it)
+			c.Specs[1].Chunks = hexChunks(keys)
+			n := 1 + r.Intn(len(keys)+1)
+			c.Specs[1].CPRWith = map[int]string{n: []string{"before", "after"}[r.Intn(2)]}
 		case "paste":
 			c.Specs[1].Chunks = joinKeys(keys, func(i int) bool { return vi && keys[i] == "\x1b" })
 		case "joined":
@@ -63,7 +70,20 @@ func init() {
 			if r.Intn(2) == 0 {
 				keys = append(keys, "\r")
 			}
-			how := []string{"paste", "joined", "bytewise"}[r.Intn(3)]
+			how := []string{"paste", "joined", "bytewise", "with-cursor-report"}[r.Intn(4)]
+			if how == "with-cursor-report" {
+				// plain editing keys: nothing that reads its own argument (it would be the one reading the terminal
+				// when the report comes), nothing that looks like a report itself (Ctrl-F3), no lone ESC
+				plain := []string{"a", "b", "c", " ", "x", "-", "0", "\x01", "\x05", "\x02", "\x06", "\x0b", "\x19", "\x7f", "\x1b[D", "\x1b[C", "\x1bb", "\x1bf", "é", "中"}
+				keys = nil
+				for k := 1 + r.Intn(12); k > 0; k-- {
+					keys = append(keys, plain[r.Intn(len(plain))])
+				}
+				if r.Intn(2) == 0 {
+					keys = append(keys, "\r")
+				}
+				sp.Mode = "emacs"
+			}
 			c := Case{Specs: []Spec{sp, sp}, Keys: hexChunks(keys), Cut: r.Int63(), Class: sp.Mode + "/" + how,
 				Meta: map[string]string{"how": how}}
 			build(&c)
